@@ -19,7 +19,8 @@ RULE = ("kernel-shaped inputs drawn from the theorem's domain and printed by the
         "state changed in between (link present / withheld with ENOENT or ESRCH / denied with EACCES; cmdline()[0] an executable file, a "
         "plain 0644 file, a searchable 0755 directory incl. '/' and a trailing-slash directory, dangling, relative -- each really put on "
         "disk, isabs/isfile/access(X_OK) answered separately by the file system); (comm, argv) pairs "
-        "around the 15-byte boundary (ASCII, multi-byte, truncated inside a character); zombies (every pool name cut at 15 and 14 bytes: name(), cmdline(), exe(), cwd()); processes being torn down (stat absent "
+        "around the 15-byte boundary (ASCII, multi-byte, truncated inside a character); 24 LIVE children on the running kernel (chosen argv / environment entries / cwd / executable file / "
+        "overwritten title / zombie: predicted /proc bytes compared with the real ones, then psutil over the real /proc); zombies (every pool name cut at 15 and 14 bytes: name(), cmdline(), exe(), cwd()); processes being torn down (stat absent "
         "with or without the directory, probe refused); name() histories on one object (the process_iter() instance in 40 %: name()/repr()/as_dict()/process_iter(['name']) calls while "
         "comm stays and the command line is rewritten to another basename with the same 15-byte prefix, overwritten by a title, emptied, or the "
         "process turns zombie; 4 names x 6 changes x 4 first calls enumerated in both tiers); histories (cmdline(), the caller edits the returned list in place, cmdline(), name(), "
@@ -28,7 +29,10 @@ RULE = ("kernel-shaped inputs drawn from the theorem's domain and printed by the
         "bytes, ENOENT/ESRCH/EACCES on files and links, vanished /proc entries, zombies) compared with the model only; raw byte "
         "strings for the UTF-8/surrogateescape decoder. Exhaustive: all argv of <=3 args over {'', 'a', ' ', 'a b', 'a '} and all "
         "titles of <=3 words over {'', 'a', 'b'} x 3 terminators. Non-trivial = non-empty input; distinct = canonical case hash.")
-TRUSTED = ["correspondence harness props/C12.py + pv/ (fake /proc tree; os.readlink and psutil._common.open wrapped for link targets and "
+TRUSTED = ["live cases: the kernel printers k_cmdline/k_environ/k_link and the comm truncation are compared byte for byte with the running "
+           "kernel's /proc/<pid>/{cmdline,environ,exe,cwd,comm} of 24 real children on every run (props/_c12_live.py); NUL garbage after link "
+           "targets, withheld links of kernel threads and environment tails are not reproducible live and stay transcriptions",
+           "correspondence harness props/C12.py + pv/ (fake /proc tree; os.readlink and psutil._common.open wrapped for link targets and "
            "open() errors; os.stat/os.access wrapped only to redirect a case path to its real on-disk object or to 'missing', and to answer "
            "path_exists_strict() on link targets; objects below the placeholder directory are reached unpatched)",
            "formats of /proc/<pid>/cmdline, environ, exe, cwd and stat comm (proc(5)) transcribed in coq/C12/Spec.v",
@@ -309,6 +313,61 @@ UDEC_ALPHA = [0x41, 0x7f, 0x80, 0xbf, 0xc0, 0xc1, 0xc2, 0xc3, 0xa9, 0xdf, 0xe0, 
               0xf4, 0xf5, 0xff, 0xe2, 0x82, 0xac, 0x00, 0x0d]
 
 
+def _live_cases():
+    B = PVBASE
+    def lc(cls, argv=None, env=None, exe=B + b"/bin/prog", cwd=B + b"/wd", exe_unlink=False, cwd_rmdir=False, title=None, mode=None,
+           zombie=False):
+        argv = [exe, b"-x"] if argv is None else argv
+        env = [b"A=1"] if env is None else env      # the environment as the exact list of entries handed to execve()
+        return {"kind": "live", "cls": "live-" + cls, "argv": [h(a) for a in argv], "env": [h(e) for e in env],
+                "exe_path": h(exe), "cwd_path": h(cwd), "exe_unlink": exe_unlink, "cwd_rmdir": cwd_rmdir,
+                "title": None if title is None else h(title), "title_mode": mode, "zombie": zombie}
+    long_name = B + b"/bin/a-program-with-a-long-name"
+    return [
+        lc("argv-plain"),
+        lc("argv-empty-strings", argv=[b"", b"", b"x", b""]),
+        lc("argv-spaces", argv=[b"prog", b"a b", b" ", b"  c  "]),
+        lc("argv-single-with-space", argv=[b"/opt/my app/run"]),
+        lc("argv-non-utf8", argv=[b"prog", b"\xff\xfe", b"caf\xc3\xa9", b"\xe2\x82", b"\r\n", b"a=b"]),
+        lc("argv-long", argv=[b"prog", b"y" * 6000, b"z"]),
+        lc("argv0-rewritten", argv=[b"-bash", b"--login"]),
+        lc("env-specials", env=[b"A=1=2", b"NL=x\ny\r\nz", b"EMPTY=", b"\xffK=\xfe\xc3", b"A=dup", b"SP ACE= v "]),
+        lc("env-junk-entries", env=[b"noequals", b"A=1", b"=emptyname", b"B=2", b"=", b"A=last", b"\xff"]),
+        lc("env-empty", env=[]),
+        lc("cwd-deleted", cwd=B + b"/gone dir", cwd_rmdir=True),
+        lc("cwd-named-deleted", cwd=B + b"/work (deleted)"),
+        lc("cwd-named-deleted-and-deleted", cwd=B + b"/work (deleted)", cwd_rmdir=True),
+        lc("cwd-non-utf8", cwd=B + b"/d\xff\xc3"),
+        lc("exe-unlinked", exe_unlink=True),
+        lc("exe-named-deleted", exe=B + b"/bin/prog (deleted)"),
+        lc("exe-named-deleted-and-unlinked", exe=B + b"/bin/prog (deleted)", exe_unlink=True),
+        lc("name-long", exe=long_name, argv=[long_name, b"-d"]),
+        lc("name-long-argv0-other", exe=long_name, argv=[b"something-else", b"-d"]),
+        lc("name-15-bytes", exe=B + b"/bin/exactly15bytes!", argv=[b"./exactly15bytes!"]),
+        lc("name-long-multibyte", exe=B + "/bin/процесс-демон".encode(), argv=["процесс-демон".encode()]),
+        lc("title-exact", argv=[b"prog", b"-x"], title=b"prog: worker [idle] since today", mode="exact"),
+        lc("title-padded", argv=[b"prog", b"--a-rather-long-option=1", b"more"], title=b"prog: idle", mode="padded"),
+        lc("zombie", exe=long_name, argv=[long_name], zombie=True),
+    ]
+
+
+def _live_comm(case):
+    return os.path.basename(unh(case["exe_path"]))[:15]
+
+
+def _live_title_bytes(case):
+    """bytes /proc/<pid>/cmdline is predicted to hold after the child wrote its title (fs/proc/base.c get_mm_cmdline/get_mm_proctitle)"""
+    title = unh(case["title"])
+    area = sum(len(unh(a)) + 1 for a in case["argv"])
+    if case["title_mode"] == "exact":
+        assert len(title) >= area and b"\x00" not in title
+        # last byte of the area is not NUL -> get_mm_proctitle(): the string from arg_start up to AND INCLUDING the first NUL
+        # (learned from the running 6.18 kernel: "include the NUL character if it was found"; kernels before 4.18-ish stop before it)
+        return title + b"\x00"
+    assert len(title) < area
+    return title + b"\x00" * (area - len(title))   # the argv area as it is
+
+
 def gen_cases(rng, tier):
     n = {"quick": 120, "thorough": 3000, "search": 400}[tier]
     cases = []
@@ -415,6 +474,9 @@ def gen_cases(rng, tier):
     for _ in range(n // 2):
         cases.append({"kind": "zombie", "cls": "zombie-rand", "comm": h(bytes(rng.choice(UDEC_ALPHA[:-2] + [0x29, 0x28, 0x20]) for _ in range(rng.choice([15, 15, 14, 1])))),
                       "esrch": rng.random() < 0.5})
+    # live: real children on the running kernel (validates k_cmdline / k_environ / k_link and comm truncation; see props/_c12_live.py)
+    if tier != "search":
+        cases.extend(_live_cases())
     # name() histories on one object: the kernel name stays, the command line changes between the calls
     def _nstate(comm, cmd=None, zombie=False):
         return {"comm": h(comm), "cmd": cmd or {"form": "argv", "parts": [], "term": "nul"}, "zombie": zombie}
@@ -558,6 +620,20 @@ def coq_term(case):
         return "run_env_bytes %s %s" % (MODEL_CFG, G.by(unh(case["data"])))
     if k == "uenc":
         return "run_uenc %s" % G.zs(case["cps"])
+    if k == "live":
+        if case["zombie"]:
+            return "run_zombie %s %s false" % (MODEL_CFG, G.by(_live_comm(case)))
+        if case["title"] is not None:
+            return "run_cmd_bytes %s %s false" % (MODEL_CFG, G.by(_live_title_bytes(case)))
+        def item(e):
+            i = e.find(b"=")
+            return "(EKV %s %s)" % (G.by(e[:i]), G.by(e[i + 1:])) if i > 0 else "(EJunk %s)" % G.by(e)
+        items = G.lst([item(unh(e)) for e in case["env"]])
+        def lnk(path, unlinked):
+            return "(Build_klink %s %s None %s ENOENT)" % (G.by(unh(path)), G.bo(unlinked), G.bo(not unlinked))
+        return "run_live %s (Build_klive %s (KArgv %s) (Build_kenv %s ENone) %s %s)" % (
+            MODEL_CFG, G.by(_live_comm(case)), G.lst([G.by(unh(a)) for a in case["argv"]]), items,
+            lnk(case["exe_path"], case["exe_unlink"]), lnk(case["cwd_path"], case["cwd_rmdir"]))
     if k == "nhist":
         steps = ["(Build_nstate %s %s %s, %s)" % (G.by(unh(st["comm"])), _g_cmd(st["cmd"]), G.bo(st["zombie"]), NOPS[o])
                  for st, o in zip(case["states"], case["ops"])]
@@ -601,6 +677,11 @@ def coq_struct(case, raw):
         return {"printed": raw[0], "model": raw[1], "spec": raw[2], "aux": [raw[3]]}
     if k == "nhist":
         return {"printed": raw[0], "model": raw[1], "spec": raw[2]}
+    if k == "live":
+        if case["zombie"] or case["title"] is not None:
+            return {"model": raw[0], "spec": raw[1]}
+        srt = lambda l: [(_sort_dict(x) if i == 1 else x) for i, x in enumerate(l)]
+        return {"printed": raw[0], "model": srt(raw[1]), "spec": None if raw[2] is None else srt(raw[2])}
     raise ValueError(k)
 
 
@@ -900,6 +981,49 @@ def _run_hist(case, coq, p, K):
     return res
 
 
+def _run_live(case, coq, psutil, K, env):
+    """a real child on the running kernel: (1) the real /proc bytes must be the bytes Coq's kernel printers predicted
+    (else LiveMismatch = harness error); (2) the real psutil over the real /proc is compared with model and spec"""
+    import shutil
+    from props import _c12_live as L
+    child = L.build_child(env["work"])
+    shutil.rmtree(K.realbase, ignore_errors=True)
+    os.makedirs(K.realbase)
+    unb = lambda b: b.replace(K.realbase.encode(), PVBASE) if isinstance(b, bytes) else b
+    old_root = psutil.PROCFS_PATH
+    proc = L.spawn(case, K.realbase, child, K.rebase)
+    try:
+        real = L.real_bytes(proc.pid)
+        comm = _live_comm(case)
+        if real["comm"] != comm:
+            raise L.LiveMismatch("comm: kernel %r, predicted %r" % (real["comm"], comm))
+        if case["zombie"]:
+            if real["cmdline"] != b"" or real["exe"] != "errno 2" or real["cwd"] != "errno 2":
+                raise L.LiveMismatch("zombie: kernel shows %r" % (real,))
+        elif case["title"] is not None:
+            if real["cmdline"] != _live_title_bytes(case):
+                raise L.LiveMismatch("title: kernel cmdline %r, predicted %r" % (real["cmdline"], _live_title_bytes(case)))
+        else:
+            pred = [unh(x["b"]) for x in coq["printed"]]
+            for name, want in zip(("cmdline", "environ", "exe", "cwd"), pred):
+                if unb(real[name]) != want:
+                    raise L.LiveMismatch("%s: kernel %r, Spec printer %r" % (name, unb(real[name])[:300], want[:300]))
+        psutil.PROCFS_PATH = "/proc"
+        psutil._pslinux.BOOT_TIME = None
+        p = psutil.Process(proc.pid)
+        if case["zombie"]:
+            res = [_call(p, op) for op in ("name", "cmdline", "exe", "cwd")]
+        elif case["title"] is not None:
+            res = _call(p, "cmdline")
+        else:
+            res = [_call(p, op) for op in ("cmdline", "environ", "exe", "cwd", "name")]
+        return K.unbase(res)
+    finally:
+        psutil.PROCFS_PATH = old_root
+        psutil._pslinux.BOOT_TIME = None
+        L.reap(proc)
+
+
 def _run_nhist(case, coq, psutil, p, K):
     """one Process object (optionally the instance process_iter() caches and reuses); before each call the kernel state is
     replaced (same pid, same start time): comm, cmdline, zombie or not"""
@@ -936,6 +1060,8 @@ def impl_run(case, coq, env):
     from pv import fakeproc
     if case["kind"] == "udec":
         return [ord(ch) for ch in psutil._common.decode(unh(case["data"]))]
+    if case["kind"] == "live":
+        return _run_live(case, coq, psutil, _Kernel(psutil, os.path.join(env["work"], "proc"), env["work"]), env)
     if case["kind"] == "uenc":
         try:
             return B("".join(chr(c) for c in case["cps"]).encode(psutil._common.ENCODING, psutil._common.ENCODING_ERRS))
